@@ -410,6 +410,48 @@ def conc (input implOut : Json) : Option (Json × Bool) := do
   let rok ← (← implOut.get? "replies_ok").asBool?
   pure (model, Conc.blocks ilog && rok)
 
+/-- C15: end to end.  Input: what the simulated genuine device holds (messages, hashes, keys
+    hash, raw quote) and whether one of its answers / the root was altered.  Expected: a genuine
+    run is accepted with exactly the device's values; an altered one is not accepted. -/
+def e2e (input implOut : Json) : Option (Json × Bool) := do
+  let hx (b : Bytes) : Json := .str (Bytes.toHex b)
+  let str (b : Bytes) : Json := .str (String.ofList (b.map fun c => Char.ofNat c.toNat))
+  let altered := (input.get? "altered").bind Json.asBool? == some true
+  let bytes (k : String) : Option Bytes := (input.get? k).bind Json.asBytes?
+  let pkh ← bytes "pubkeys_hash"
+  let pmFields (pm : Verify.PowHsmMsg) : List (String × Json) :=
+    [("platform", str pm.platform), ("ud2", hx pm.udValue), ("best_block", hx pm.bestBlock),
+     ("last_tx", hx pm.lastSignedTx), ("timestamp", .int pm.timestamp)]
+  let fail : Json := .obj [("ok", .bool false)]
+  let model : Json :=
+    if altered then fail
+    else if (input.get? "platform") == some (.str "sgx") then
+      match bytes "message", bytes "quote" with
+      | some m, some q =>
+        (match Verify.verifySgx pkh (.valid m q) with
+         | none => fail
+         | some p => .obj [("ok", .bool true), ("printed", .obj ([("hash", hx p.pubkeysHash),
+             ("mrenclave", hx p.mrenclave), ("mrsigner", hx p.mrsigner), ("version", str p.powhsm.version)]
+             ++ pmFields p.powhsm))])
+      | _, _ => fail
+    else
+      let pks : List Verify.Pubkey := match input.get? "pubkeys" with
+        | some (.arr xs) => xs.filterMap fun x => match x with
+            | .arr [.str path, c] => c.asBytes?.map fun cb => { path := path, compressed := cb }
+            | _ => none
+        | _ => []
+      match bytes "ui_msg", bytes "ui_hash", bytes "signer_msg", bytes "signer_hash" with
+      | some um, some uh, some sm, some sh =>
+        (match Verify.verifyLedger pks pkh (.valid um uh) (.valid sm sh) with
+         | none => fail
+         | some p => .obj [("ok", .bool true), ("printed", .obj ([("ud", hx p.udValue), ("ui_pubkey", hx p.uiPubKey),
+             ("signer_hash_auth", hx p.signerHashAuth), ("iteration", .int p.signerIteration),
+             ("ui_hash", hx p.uiHash), ("ui_version", str p.uiVersion), ("hash", hx p.pubkeysHash),
+             ("signer_hash", hx p.signerHash), ("signer_version", str p.signerVersion)]
+             ++ (match p.powhsm with | some pm => pmFields pm | none => [])))])
+      | _, _, _, _ => fail
+  pure (model, model.normalize == implOut.normalize)
+
 def run (op : String) (input implOut : Json) : Option (Json × Bool) :=
   match op with
   | "unsign" => unsign input implOut
@@ -443,6 +485,7 @@ def run (op : String) (input implOut : Json) : Option (Json × Bool) :=
   | "hexhash" => hexhash input implOut
   | "admin" => admin input implOut
   | "conc" => conc input implOut
+  | "e2e" => e2e input implOut
   | "line.C14" => line (fun i o =>
       -- a transaction that cannot be decoded, or has an input with an empty script, is answered
       -- -102 without contacting the device: no event of any kind (no APDU, no disconnect, no connect)
